@@ -126,6 +126,15 @@ pub fn run(case: &Term) -> Term {
         // the list view of an element is the same before and after its other views
         stable = stable && l1 == l2 && l2 == l3 && l1 == list_result(&Value::from(v.as_str()));
     }
+    // the last view of each element alternates between integer, float and list, so that the list
+    // is formatted from elements that currently hold each kind of representation
+    for (i, v) in viewed.iter().enumerate() {
+        match i % 3 {
+            0 => { let _ = v.as_int(); }
+            1 => { let _ = v.as_float(); }
+            _ => { let _ = v.as_list(); }
+        }
+    }
     let formatted_viewed = Value::from(viewed).as_str().to_string();
     if !stable {
         formatted = format!("{}<<list view of an element changed after other views>>", formatted);
